@@ -1,7 +1,12 @@
 SPECIFICATION Spec
 CONSTANTS
-  Kinds <- KindsAll
+  Kinds <- KindsChain
   NeedsWitness <- Needs
+  FeeKinds <- Fees
+  ParamKind = "setparam"
+  MaxParam = 1
+  MaxRestart = 1
+  StaleGasTable = FALSE
   Variants <- ProbedVariants
   SameAddr <- ProbedSameAddr
   MaxTx = 2
